@@ -1,5 +1,109 @@
-(* C11 - stub, theorems follow *)
-From RP Require Import Lib.Base Lib.Varint Model.Net Model.Client Spec.NetSpec Proofs.NetProofs.
-Theorem stub_probe_bytes : probe_bytes = [2; 0; 0; 0; 8; 1].
-Proof. exact probe_bytes_eq. Qed.
-Print Assumptions stub_probe_bytes.
+(* C11 - Connection lifecycle is sound under cancellation and panel loss at any point.
+   Two models, both tied to the implementation by harness/net (Run/C11.v):
+   (b) Model/Lifecycle.v - the main goroutine and the per-connection writer goroutines of
+       ConnectToPanel as a transition system over shared exit / quit / socket / wait-group /
+       context state; a run is ANY list of scheduler and environment choices (who steps next;
+       dial succeeds or fails; a read delivers or fails; which ready select case is taken; when
+       the context is cancelled).  The theorems below hold for ALL such lists.
+   (a) Model/Client.v run_conn / bin_loop on a timed peer stream with a close at ANY instant
+       (the panel drops the connection at any byte offset).
+   ENVIRONMENT ASSUMPTION (the API contract in ConnectToPanel's doc comment): the caller keeps
+   receiving from msgsFromPanel; a blocked channel send is not modelled.
+   PARTIAL (DESIGN section 5): Go scheduler, kernel TCP, timers exercised by the tie, not
+   modelled.  See also c11_returns_after_cancel_partial below. *)
+From RP Require Import Lib.Base Lib.Varint Model.Net Model.Client Model.Lifecycle Spec.NetSpec
+     Proofs.NetProofs Proofs.NetFrameProofs Proofs.NetLifeProofs.
+
+(* connect and disconnect callbacks strictly alternate, starting with connect *)
+Theorem c11_callbacks_alternate : forall cs, alternate true (cbs (snd (run init cs))) = true.
+Proof. exact callbacks_alternate. Qed.
+Print Assumptions c11_callbacks_alternate.
+
+(* a disconnect is reported as cancelled only after the cancellation, and is then the last callback *)
+Theorem c11_cancelled_flag_sound : forall cs,
+  cancelled_last (cbs (snd (run init cs))) = true /\
+  forall h1 h2, snd (run init cs) = h1 ++ LbDisconnect true :: h2 -> has_cancel h1 = true.
+Proof. exact cancelled_flag_sound. Qed.
+Print Assumptions c11_cancelled_flag_sound.
+
+(* when the call has returned, every socket it opened is closed *)
+Theorem c11_sockets_closed : forall cs, s_m (fst (run init cs)) = MReturned ->
+  Forall (fun c => c_open c = false) (s_cs (fst (run init cs))).
+Proof. exact sockets_closed. Qed.
+Print Assumptions c11_sockets_closed.
+
+(* wait-group accounting: the counter is always the call itself plus the writer goroutines that
+   have executed wg.Add(1) and not yet wg.Done(); it never goes negative; after the return it
+   counts exactly the started, unfinished writers *)
+Theorem c11_wg_accounting : forall cs,
+  let s := fst (run init cs) in
+  s_wg s = main_c (s_m s) + count_started (s_cs s) /\ 0 <= s_wg s /\
+  (s_m s = MReturned -> s_wg s = count_started (s_cs s)).
+Proof. exact wg_accounting. Qed.
+Print Assumptions c11_wg_accounting.
+
+(* "the supplied wait group drains with every internal goroutine finished" - as stated this is
+   FALSE of the faithful model, because wg.Add(1) is executed INSIDE the writer goroutine
+   (connecttopanel.go:137): there is a schedule in which the call has returned, the counter is
+   0, and the writer goroutine of a lost connection has not yet run (and will then Add(1) on
+   the drained group).  Witness: wg_gap_schedule (vm_compute). *)
+Theorem c11_wg_drains_refuted :
+  exists cs, let s := fst (run init cs) in
+    s_m s = MReturned /\ s_wg s = 0 /\ exists c, In c (s_cs s) /\ c_w c = WNotStarted.
+Proof. exact wg_drains_refuted. Qed.
+Print Assumptions c11_wg_drains_refuted.
+
+Theorem c11_wg_gap_then_add : s_wg (fst (run init (wg_gap_schedule ++ [CWriter 0 WNone]))) = 1.
+Proof. exact wg_gap_then_add. Qed.
+Print Assumptions c11_wg_gap_then_add.
+
+(* ... what does hold: every such run contains the uninterruptible reconnection sleep
+   (time.Sleep of >= 1 s, connecttopanel.go:238) between the creation of that goroutine and the
+   return - it needs a goroutine to stay unscheduled for over a second, which is why the tie
+   never observes it; and in every run WITHOUT that sleep all writer goroutines have started
+   when the call returns, so that a drained wait group means all of them are finished. *)
+Theorem c11_wg_gap_needs_retry_sleep : forall cs,
+  let s := fst (run init cs) in
+  s_m s = MReturned -> (exists c, In c (s_cs s) /\ c_w c = WNotStarted) -> has_retry (snd (run init cs)) = true.
+Proof. exact wg_gap_needs_retry_sleep. Qed.
+Print Assumptions c11_wg_gap_needs_retry_sleep.
+
+Theorem c11_wg_drains_partial : forall cs,
+  let s := fst (run init cs) in
+  s_m s = MReturned -> has_retry (snd (run init cs)) = false ->
+  Forall (fun c => c_w c <> WNotStarted) (s_cs s) /\
+  (s_wg s = 0 -> Forall (fun c => started c = 0) (s_cs s)).
+Proof. exact wg_drains_partial. Qed.
+Print Assumptions c11_wg_drains_partial.
+
+(* the panel drops the connection at ANY instant after ANY prefix of its stream (every byte
+   offset): exactly the frames completely received before the drop are delivered, each once,
+   in order - the same as if the stream had simply stopped there - and the read loop ends *)
+Theorem c11_complete_frames_once : forall (M : Type) (unmarshal : bytes -> M) fuel tb nw ct rst,
+  tb_sorted nw tb = true -> nw <= ct -> Forall (fun x => fst x <= ct) tb -> (length tb < fuel)%nat ->
+  deliveries M (fst (bin_loop M unmarshal fuel (C nw tb (Some (ct, rst))))) = deliveries M (fst (bin_loop M unmarshal fuel (C nw tb None))) /\
+  deliveries M (fst (bin_loop M unmarshal fuel (C nw tb (Some (ct, rst))))) = map (fun g => (snd g, unmarshal (fst g))) (fst (walk_bin fuel tb)) /\
+  exists t r, snd (bin_loop M unmarshal fuel (C nw tb (Some (ct, rst)))) = Dropped t r.
+Proof. exact close_delivers_complete_frames. Qed.
+Print Assumptions c11_complete_frames_once.
+
+(* ASCII: every complete line before the drop, none after *)
+Theorem c11_complete_lines_once : forall (M : Type) (decode : bytes -> M) fuel (tb : list (Z * Z)) nw c,
+  close_after c nw tb -> (length tb < fuel)%nat ->
+  asc_loop M decode fuel (C nw tb c) =
+  (map (fun x => ODeliver (snd x) (decode (trim_space (fst x)))) (walk_lines nw tb),
+   match c with Some (ct, rst) => Dropped ct (end_reason rst) | None => Waiting end).
+Proof. exact asc_refines. Qed.
+Print Assumptions c11_complete_lines_once.
+
+(* non-vacuity: the lifecycle system does reach the interesting states *)
+Example c11_ex_run :
+  snd (run init [CMain ENone; CMain EDialOk; CMain ENone; CMain ENone; CMain ENone; CMain EReadOk; CWriter 0 WNone;
+                 CCancel; CWriter 0 WCtx; CWriter 0 WNone; CWriter 0 WNone; CMain (EReadFail false); CMain ENone;
+                 CMain ENone; CMain ENone; CMain ENone; CWriter 0 WNone; CMain ENone])
+  = [LbTau; LbDial true; LbTau; LbTau; LbConnect; LbDeliver; LbTau; LbCancel; LbTau; LbTau; LbTau; LbTau; LbTau; LbTau; LbTau;
+     LbDisconnect true; LbTau; LbReturned].
+Proof. reflexivity. Qed.
+Example c11_ex_crash_offset :
+  deliveries bytes (fst (bin_loop bytes (fun p => p) 20 (C 0 [(1, 1); (1, 0); (1, 0); (1, 0); (2, 7); (3, 2); (3, 0)] (Some (50, false))))) = [(2, [7])].
+Proof. reflexivity. Qed.
